@@ -57,11 +57,17 @@ type FuncSpec struct {
 	Fresh     []string
 	Verify    bool // for trusted/external-with-body: no
 	IsIface   bool
+	AtAsserts []*AtAssert // assertions checked at every call site of a given callee inside this function
 	Assumes   []*Clause // trusted postconditions: assumed by callers, not proved for the body (listed as assumptions)
 	Conforms  string // key of the interface-method contract this method must satisfy
 	Content   bool   // generate quantified content facts for append/copy
 	Ownership bool   // enable byte-array ownership ghost state
 	EngineOwned []string
+}
+
+type AtAssert struct {
+	Callee string
+	Clause *Clause
 }
 
 type SpecFunc struct {
@@ -272,6 +278,18 @@ func (sp *Specs) LoadSpecFile(path string) error {
 			} else {
 				cur.Ensures = append(cur.Ensures, c)
 			}
+			lastExpr = &c.Expr
+		case "at":
+			// at <callee key> assert [label] expr
+			k := strings.Index(rest, " assert ")
+			if cur == nil || k < 0 {
+				return fmt.Errorf("%s:%d: bad at-assert", path, ln)
+			}
+			c, err := parseClause("at", strings.TrimSpace(rest[k+8:]), path, ln)
+			if err != nil {
+				return err
+			}
+			cur.AtAsserts = append(cur.AtAsserts, &AtAssert{Callee: strings.TrimSpace(rest[:k]), Clause: c})
 			lastExpr = &c.Expr
 		case "assume":
 			if cur == nil {
